@@ -100,8 +100,14 @@ def main():
                 for d in res[s][p][1][:4]:
                     print('      ', p, d)
     print(f'{caught}/{len(seeds)} seeded changes reported')
-    if a.all and not a.ids:
+    if a.all:
         out = {}
+        if a.ids:
+            # incremental: keep the entries of the seeds not run now
+            try:
+                out = json.load(open(VERIF / 'seeded' / 'MATRIX.json'))
+            except (OSError, ValueError):
+                out = {}
         for s_ in seeds:
             out[s_] = {
                 'fired': sorted(p for p, (c, _d) in res[s_].items()
